@@ -302,6 +302,37 @@ def load_findings():
     return res
 
 
+SIMD_BUILDS = [("sse2", ["-DQENTEM_SSE2=1", "-msse2"]), ("avx2", ["-DQENTEM_AVX2=1", "-mavx2"])]
+
+
+def simd_builds(ctx, src, lines, base, what, jobs=12, tag="san"):
+    """The same input lines through SSE2 and AVX2 builds of a harness (ASan/UBSan, exact-size buffers): every
+    answer must equal the scalar build's answer `base[i]`, and no sanitizer fault may occur."""
+    have_avx2 = "avx2" in open("/proc/cpuinfo").read()
+    for name, extra in SIMD_BUILDS:
+        if name == "avx2" and not have_avx2:
+            ctx.notes.append("CPU without AVX2: AVX2 build not run")
+            continue
+        exe = ctx.build_harness(src, flags=SAN_FLAGS + extra, tag=tag + "_" + name)
+        if not exe:
+            continue
+        out, faults = run_lines_parallel(exe, lines, jobs=jobs)
+        for i, kind, err in faults:
+            if base[i].startswith("FAULT"):
+                continue      # already reported for the scalar build
+            ctx.fail("fault:" + kind, "sanitizer fault in the %s build (%s) on: %s" % (name, what, lines[i][:300]), {"line": lines[i], "build": name, "stderr": err})
+        n = 0
+        for l, a, b in zip(lines, base, out):
+            if a.startswith("FAULT") or b.startswith("FAULT"):
+                continue
+            if a != b:
+                n += 1
+                if n <= 3:
+                    ctx.fail("simd-differs", "%s build differs from the scalar build (%s): %s -> %s (scalar %s)" % (name, what, l[:300], b[:200], a[:200]),
+                             {"line": l, "build": name, "simd": b, "scalar": a})
+        ctx.count("simd-builds(%s)" % name, len(lines), len(set(lines)))
+
+
 class Ctx:
     def __init__(self, pid, tier, seed):
         self.pid = pid
